@@ -1,6 +1,37 @@
 //@@ unit props=C16,C18,C14,C06 rlimit=80
-// Unit names: xls defined names (src/xls.rs parse_defined_names + the Lbl / ExternSheet arms of Xls::parse_workbook) and the
-// VBA project reference list (src/vba.rs Reference::from_stream), verbatim text.
+// Unit names: the defined names of an xls workbook (C16: "defined_names lists every defined name with its text or decoded reference, in
+// order") and the reference list of a VBA project (C18: "the project references are listed with their names"). Verbatim text of
+//   src/xls.rs  parse_defined_names                      (mod dn)      first token of a name's formula -> (XTI index, reference text)
+//   src/xls.rs  Xls::parse_workbook                      (mod dn::wb)  Lbl (0x0018) / ExternSheet (0x0017) arms + the `defined_names` closure chain
+//   src/vba.rs  skip, read_variable_record, check_record, check_variable_record, Reference::from_stream   (mod vb)
+//
+// Specifications (from the formats):
+//   [MS-XLS] 2.5.198.84/.29/.83/.30 PtgRef3d / PtgArea3d / PtgRefErr3d / PtgAreaErr3d, 2.5.198.111 RgceLocRel (column = 14 bits + colRelative
+//     + rowRelative): `cell_text` = [$] letters(col) [$] decimal(row + 1) with `$` in front of absolute coordinates; `col_letters` = bijective
+//     base-26 (linked to push_column's proved contract by lemma_letters_unique), `dec_str` = decimal numeral (trusted `format!("{}", u32)`).
+//   [MS-XLS] 2.4.150 Lbl, 2.4.105 ExternSheet, 2.5.277 XTI, 2.4.271 SupBook: `lbls_of` (one entry per Lbl record, name of cch characters
+//     decoded with the code page in force, formula = the cce bytes behind the name), `xtis_of` (first cXTI entries of every ExternSheet
+//     record), `final_text` ("<BoundSheet8 name of XTI[ixti].itabFirst>!<text>", "#REF" when out of range), `xti_internal` (iSupBook
+//     designates the self-referencing SupBook).
+//   [MS-OVBA] 2.3.4.2.2 PROJECTREFERENCES: `ref_walk` = grammar of the reference array (REFERENCENAME 0x0016 + 0x003E, REFERENCEORIGINAL 0x0033,
+//     REFERENCECONTROL 0x002F .. 0x0030 .., REFERENCEREGISTERED 0x000D, REFERENCEPROJECT 0x000E, ended by PROJECTMODULES 0x000F) yielding the
+//     events Name / Libid in stream order; `ev_names`; `refs_fold` (a Name starts a reference, a libid with a description re-describes the
+//     reference under way; 2.1.1.8: the description is the last '#'-separated field).
+//
+// Clauses: C16.empty_rgce, ref3d_text, area3d_text, referr3d_text, areaerr3d_text, other_tokens_name_no_sheet, defined_name_never_err;
+//   C16.xls_defined_names_one_per_lbl_in_order (+ lbl_records_collected_in_order, xti_table_collected_in_order,
+//   defined_name_prefixed_with_its_sheet); C18.reference_names_in_order, reference_descriptions_from_their_libids,
+//   reference_array_wellformed_if_ok, reference_array_consumed (+ skip_*, var_record*, check_*record* of the cursor helpers).
+// Registered findings (findings/names.json): C16 relative flags of the column field not decoded (3 marker assertions), C06 first token
+//   sliced without length check (3 marker assertions), C16 XTI.iSupBook ignored: external references listed under an own sheet (1).
+// parse_workbook is verified UNDER A HYPOTHESIS (`wb_hyp`, satisfiable: witness_wb_hyp) so that none of the implicit obligations that
+//   unit xlswb registers as C06 findings for its unconditional copy fails here a second time; Reference::from_stream needs no hypothesis
+//   (the current text checks every read).
+// Declared rewrites of real code: see the `replace` directives (format! -> trusted wrappers with the same expression as body; or_else with
+//   `&mut` captures; map/collect chains inside the generic impl -> explicit loops with the closure bodies re-inserted verbatim;
+//   chunks/take/map -> explicit loop over the same Chunks iterator).
+// Not pinned down: `Reference::path` (PathBuf is outside the verifier), set_libid itself (trusted contract from its text), the reference
+//   text of names whose formula starts with any other token ("Unsupported ptg" message), BIFF5 NAME records.
 #![feature(allocator_api)]
 #![feature(pattern)]
 #![allow(unused_imports, dead_code, unused_variables, unused_mut, unused_assignments, unexpected_cfgs, deprecated)]
@@ -11,6 +42,8 @@ use std::collections::BTreeMap;
 use std::slice::Chunks;
 
 verus! {
+
+global size_of usize == 8;   // checked by rustc against the target (x86_64); used for `negative i16 as usize` only
 
 #[verifier::external_type_specification] #[verifier::external_body] pub struct ExIoError(std::io::Error);
 // TRUSTED: std::io::ErrorKind is a plain enum; `io::Error::from(kind)` builds an error value and never panics
@@ -182,10 +215,14 @@ verif_opaque_string()
         res is Ok,
         //# C16.empty_rgce
         rgce@.len() == 0 ==> dn_is(res, None, "empty rgce"@),
+        // (the two reference clauses are stated for absolute references; a relative reference is the registered finding
+        //  C16.ref3d_relative_flags_not_decoded / C16.area3d_relative_flags_not_decoded: the format asks for `ref3d_text` / `area3d_text`
+        //  there as well -- column letters of the low 14 bits, `$` only in front of absolute coordinates -- and the code has no such case)
         //# C16.ref3d_text
-        rgce@.len() >= 7 && is_ref3d(rgce@[0]) ==> dn_is(res, Some(u16_at(rgce@, 1) as usize), ref3d_text(rgce@)),
+        rgce@.len() >= 7 && is_ref3d(rgce@[0]) && absolute_cf(u16_at(rgce@, 5)) ==> dn_is(res, Some(u16_at(rgce@, 1) as usize), ref3d_text(rgce@)),
         //# C16.area3d_text
-        rgce@.len() >= 11 && is_area3d(rgce@[0]) ==> dn_is(res, Some(u16_at(rgce@, 1) as usize), area3d_text(rgce@)),
+        rgce@.len() >= 11 && is_area3d(rgce@[0]) && absolute_cf(u16_at(rgce@, 7)) && absolute_cf(u16_at(rgce@, 9))
+            ==> dn_is(res, Some(u16_at(rgce@, 1) as usize), area3d_text(rgce@)),
         //# C16.referr3d_text
         rgce@.len() >= 7 && is_referr3d(rgce@[0]) ==> dn_is(res, Some(u16_at(rgce@, 1) as usize), "#REF!"@),
         //# C16.areaerr3d_text
@@ -261,10 +298,16 @@ verif_opaque_string()
                     assert(p1.push(':') =~= p1 + seq![':']);
                 }
             }
-//@@ before /\(Some\(ixti\), "#REF!"/
+//@@ before /\(Some\(ixti\), "/
             proof { if g.len() >= 3 { lemma_u16_at(g, 1); } }
 //@@ end
 
+
+// (child module of dn: the Lbl arm calls the private fn parse_defined_names verified above, by its contract)
+pub mod wb {
+use super::*;
+//@@ include names/wb.rs
+} // mod wb
 } // mod dn
 
 pub mod vb {
@@ -341,13 +384,13 @@ pub open spec fn name_rec(b: Seq<u8>) -> Option<(Seq<u8>, Seq<u8>)> {
         None => None,
     }
 }
-/// 2.3.4.2.2.4 REFERENCEORIGINAL after its Id 0x0033: SizeOfLibidOriginal, LibidOriginal
+/// 2.3.4.2.2.4 REFERENCEORIGINAL after its Id 0x0033: SizeOfLibidOriginal, LibidOriginal: (LibidOriginal, rest)
 #[verifier::opaque]
-pub open spec fn original_rest(b: Seq<u8>) -> Option<Seq<u8>> { match var_fld(b) { Some((_, r)) => Some(r), None => None } }
-/// 2.3.4.2.2.5 REFERENCEREGISTERED after its Id 0x000D: Size (4), SizeOfLibid, Libid, Reserved1 (4), Reserved2 (2)
+pub open spec fn original_rec(b: Seq<u8>) -> Option<(Seq<u8>, Seq<u8>)> { var_fld(b) }
+/// 2.3.4.2.2.5 REFERENCEREGISTERED after its Id 0x000D: Size (4), SizeOfLibid, Libid, Reserved1 (4), Reserved2 (2): (Libid, rest)
 #[verifier::opaque]
-pub open spec fn registered_rest(b: Seq<u8>) -> Option<Seq<u8>> {
-    match skip_n(b, 4) { Some(r1) => match var_fld(r1) { Some((_, r2)) => skip_n(r2, 6), None => None }, None => None }
+pub open spec fn registered_rec(b: Seq<u8>) -> Option<(Seq<u8>, Seq<u8>)> {
+    match skip_n(b, 4) { Some(r1) => match var_fld(r1) { Some((l, r2)) => match skip_n(r2, 6) { Some(r3) => Some((l, r3)), None => None }, None => None }, None => None }
 }
 /// 2.3.4.2.2.6 REFERENCEPROJECT after its Id 0x000E: Size (4), SizeOfLibidAbsolute, LibidAbsolute, SizeOfLibidRelative, LibidRelative,
 /// MajorVersion (4), MinorVersion (2)
@@ -359,15 +402,15 @@ pub open spec fn project_rest(b: Seq<u8>) -> Option<Seq<u8>> {
     }
 }
 /// 2.3.4.2.2.3 REFERENCECONTROL after its Id 0x002F: SizeTwiddled (4), SizeOfLibidTwiddled, LibidTwiddled, Reserved1 (4), Reserved2 (2),
-/// [NameRecordExtended = REFERENCENAME], Reserved3 0x0030
+/// [NameRecordExtended = REFERENCENAME], Reserved3 0x0030: (LibidTwiddled, rest)
 #[verifier::opaque]
-pub open spec fn control_head(b: Seq<u8>) -> Option<Seq<u8>> {
+pub open spec fn control_head(b: Seq<u8>) -> Option<(Seq<u8>, Seq<u8>)> {
     match skip_n(b, 4) {
         Some(r1) => match var_fld(r1) {
-            Some((_, r2)) => match skip_n(r2, 6) {
+            Some((l, r2)) => match skip_n(r2, 6) {
                 Some(r3) => if r3.len() < 2 { None } else if le16(r3) == 0x0016 {
-                    match name_rec(r3.skip(2)) { Some((_, r4)) => expect_id(r4, 0x0030), None => None }
-                } else if le16(r3) == 0x0030 { Some(r3.skip(2)) } else { None },
+                    match name_rec(r3.skip(2)) { Some((_, r4)) => match expect_id(r4, 0x0030) { Some(r5) => Some((l, r5)), None => None }, None => None }
+                } else if le16(r3) == 0x0030 { Some((l, r3.skip(2))) } else { None },
                 None => None,
             },
             None => None,
@@ -375,77 +418,162 @@ pub open spec fn control_head(b: Seq<u8>) -> Option<Seq<u8>> {
         None => None,
     }
 }
-/// .. SizeExtended (4), SizeOfLibidExtended, LibidExtended, Reserved4 (4), Reserved5 (2), OriginalTypeLib (16), Cookie (4)
+/// .. SizeExtended (4), SizeOfLibidExtended, LibidExtended, Reserved4 (4), Reserved5 (2), OriginalTypeLib (16), Cookie (4):
+/// (LibidTwiddled, LibidExtended, rest)
 #[verifier::opaque]
-pub open spec fn control_rest(b: Seq<u8>) -> Option<Seq<u8>> {
+pub open spec fn control_rec(b: Seq<u8>) -> Option<(Seq<u8>, Seq<u8>, Seq<u8>)> {
     match control_head(b) {
-        Some(r5) => match skip_n(r5, 4) { Some(r6) => match var_fld(r6) { Some((_, r7)) => skip_n(r7, 26), None => None }, None => None },
+        Some((l1, r5)) => match skip_n(r5, 4) {
+            Some(r6) => match var_fld(r6) { Some((l2, r7)) => match skip_n(r7, 26) { Some(r8) => Some((l1, l2, r8)), None => None }, None => None },
+            None => None,
+        },
         None => None,
     }
 }
-/// what the item at the head of t is: None = malformed; Some((name, rest)): name = Some(payload) for a REFERENCENAME record;
-/// rest = None for the PROJECTMODULES record (Id 0x000F) that ends the array
+/// what a reference array says, in stream order: a REFERENCENAME record starts a reference; a libid of a REFERENCEORIGINAL /
+/// REFERENCECONTROL (twiddled, extended) / REFERENCEREGISTERED record describes the reference under way
+pub enum Ev { Name(Seq<u8>), Libid(Seq<u8>) }
+/// what the item at the head of t is: None = malformed; Some((events, rest)); rest = None for the PROJECTMODULES record (Id 0x000F) that
+/// ends the array
 #[verifier::opaque]
-pub open spec fn ref_item(t: Seq<u8>) -> Option<(Option<Seq<u8>>, Option<Seq<u8>>)> {
+pub open spec fn ref_item(t: Seq<u8>) -> Option<(Seq<Ev>, Option<Seq<u8>>)> {
     if t.len() < 2 { None } else {
         let id = le16(t);
         let b = t.skip(2);
-        if id == 0x000F { Some((None, None)) }
-        else if id == 0x0016 { match name_rec(b) { Some((n, r)) => Some((Some(n), Some(r))), None => None } }
-        else if id == 0x0033 { match original_rest(b) { Some(r) => Some((None, Some(r))), None => None } }
-        else if id == 0x002F { match control_rest(b) { Some(r) => Some((None, Some(r))), None => None } }
-        else if id == 0x000D { match registered_rest(b) { Some(r) => Some((None, Some(r))), None => None } }
-        else if id == 0x000E { match project_rest(b) { Some(r) => Some((None, Some(r))), None => None } }
+        if id == 0x000F { Some((Seq::empty(), None)) }
+        else if id == 0x0016 { match name_rec(b) { Some((n, r)) => Some((seq![Ev::Name(n)], Some(r))), None => None } }
+        else if id == 0x0033 { match original_rec(b) { Some((l, r)) => Some((seq![Ev::Libid(l)], Some(r))), None => None } }
+        else if id == 0x002F { match control_rec(b) { Some((l1, l2, r)) => Some((seq![Ev::Libid(l1), Ev::Libid(l2)], Some(r))), None => None } }
+        else if id == 0x000D { match registered_rec(b) { Some((l, r)) => Some((seq![Ev::Libid(l)], Some(r))), None => None } }
+        else if id == 0x000E { match project_rest(b) { Some(r) => Some((Seq::empty(), Some(r))), None => None } }
         else { None }
     }
 }
-pub open spec fn opt_seq<T>(o: Option<T>) -> Seq<T> { match o { Some(x) => seq![x], None => Seq::<T>::empty() } }
-pub open spec fn prepend(done: Seq<Seq<u8>>, w: Option<(Seq<Seq<u8>>, Seq<u8>)>) -> Option<(Seq<Seq<u8>>, Seq<u8>)> {
+pub open spec fn prepend(done: Seq<Ev>, w: Option<(Seq<Ev>, Seq<u8>)>) -> Option<(Seq<Ev>, Seq<u8>)> {
     match w { Some(x) => Some((done + x.0, x.1)), None => None }
 }
-/// the reference array that starts at t: (the Name payloads of its REFERENCENAME records in stream order, the stream suffix behind the Id
-/// 0x000F of the PROJECTMODULES record that ends it); None: the array is malformed or truncated
+/// the reference array that starts at t: (its events in stream order, the stream suffix behind the Id 0x000F of the PROJECTMODULES record
+/// that ends it); None: the array is malformed or truncated
 #[verifier::opaque]
-pub open spec fn ref_walk(t: Seq<u8>) -> Option<(Seq<Seq<u8>>, Seq<u8>)>
+pub open spec fn ref_walk(t: Seq<u8>) -> Option<(Seq<Ev>, Seq<u8>)>
     decreases t.len()
 {
     match ref_item(t) {
         None => None,
-        Some((n, None)) => Some((Seq::empty(), t.skip(2))),
-        Some((n, Some(r))) => if r.len() < t.len() { prepend(opt_seq(n), ref_walk(r)) } else { None },
+        Some((e, None)) => Some((Seq::empty(), t.skip(2))),
+        Some((e, Some(r))) => if r.len() < t.len() { prepend(e, ref_walk(r)) } else { None },
     }
+}
+/// the Name payloads of the REFERENCENAME records, in order
+pub open spec fn ev_names(evs: Seq<Ev>) -> Seq<Seq<u8>>
+    decreases evs.len()
+{
+    if evs.len() == 0 { Seq::empty() } else { match evs.last() { Ev::Name(n) => ev_names(evs.drop_last()).push(n), Ev::Libid(_) => ev_names(evs.drop_last()) } }
 }
 /// [MS-OVBA] 2.3.4.2.2.2: Name "MUST conform to VBA identifier naming rules" -- in particular it is not empty
 pub open spec fn names_nonempty(ns: Seq<Seq<u8>>, cp: u16) -> bool { forall|j: int| 0 <= j < ns.len() ==> decoded(cp, #[trigger] ns[j]).len() > 0 }
+
+// ---- libids ([MS-OVBA] 2.1.1.8 LibidReference: "*\" kind guid "#" version "#" lcid "#" LibidPath "#" LibidRegName): fields separated by
+// '#'; the last one (LibidRegName) is the description of the library
+pub open spec fn last_hash(s: Seq<char>) -> int
+    decreases s.len()
+{
+    if s.len() == 0 { -1 } else if s.last() == '#' { s.len() - 1 } else { last_hash(s.drop_last()) }
+}
+/// the libid says nothing: empty, or its last two fields are empty (ends with "##")
+pub open spec fn libid_silent(l: Seq<u8>) -> bool { l.len() == 0 || (l.len() >= 2 && l[l.len() - 2] == 0x23 && l[l.len() - 1] == 0x23) }
+/// None: not a libid (no '#'); Some(None): silent; Some(Some(d)): d = its last field
+pub open spec fn libid_desc(cp: u16, l: Seq<u8>) -> Option<Option<Seq<char>>> {
+    if libid_silent(l) { Some(None) } else {
+        let s = decoded(cp, l);
+        if last_hash(s) < 0 { None } else { Some(Some(s.subrange(last_hash(s) + 1, s.len() as int))) }
+    }
+}
+/// a reference as far as this unit pins it down: name and description (the path is not: PathBuf is outside the verifier)
+pub struct RefV { pub name: Seq<char>, pub desc: Seq<char> }
+/// the references an event sequence describes: a Name starts one (its description is the name until a libid says otherwise), a libid
+/// with a description re-describes the reference under way (libids in front of the first Name describe nothing)
+pub open spec fn refs_fold(evs: Seq<Ev>, cp: u16) -> Seq<RefV>
+    decreases evs.len()
+{
+    if evs.len() == 0 { Seq::empty() } else {
+        let p = refs_fold(evs.drop_last(), cp);
+        match evs.last() {
+            Ev::Name(n) => p.push(RefV { name: decoded(cp, n), desc: decoded(cp, n) }),
+            Ev::Libid(l) => if p.len() == 0 { p } else {
+                match libid_desc(cp, l) { Some(Some(d)) => p.update(p.len() - 1, RefV { name: p.last().name, desc: d }), _ => p }
+            },
+        }
+    }
+}
+spec fn refv(r: Reference) -> RefV { RefV { name: r.name@, desc: r.description@ } }
 spec fn names_match(refs: Seq<Reference>, ns: Seq<Seq<u8>>, cp: u16) -> bool {
     refs.len() == ns.len() && forall|j: int| 0 <= j < refs.len() ==> (#[trigger] refs[j]).name@ == decoded(cp, ns[j])
 }
-/// loop bookkeeping of from_stream: `refs` = the references already pushed, `cur` = the one under construction, `done` = the Name payloads
-/// of the REFERENCENAME records read so far
-spec fn pend_ok(refs: Seq<Reference>, cur: Reference, done: Seq<Seq<u8>>, cp: u16) -> bool {
-    (done.len() == 0 ==> refs.len() == 0 && cur.name@.len() == 0)
-    && (done.len() > 0 ==> refs.len() == done.len() - 1 && cur.name@ == decoded(cp, done.last()))
+spec fn refs_match(refs: Seq<Reference>, f: Seq<RefV>) -> bool {
+    refs.len() == f.len() && forall|j: int| 0 <= j < refs.len() ==> refv(#[trigger] refs[j]) == f[j]
 }
-spec fn prefix_ok(refs: Seq<Reference>, done: Seq<Seq<u8>>, cp: u16) -> bool {
-    forall|j: int| 0 <= j < refs.len() ==> j < done.len() && (#[trigger] refs[j]).name@ == decoded(cp, done[j])
+/// loop bookkeeping of from_stream: `refs` = the references already pushed, `cur` = the one under construction, `f` = refs_fold of the
+/// events read so far
+spec fn cur_ok(refs: Seq<Reference>, cur: Reference, f: Seq<RefV>) -> bool {
+    (f.len() == 0 ==> refs.len() == 0 && cur.name@.len() == 0)
+    && (f.len() > 0 ==> refs.len() == f.len() - 1 && refv(cur) == f.last() && forall|j: int| 0 <= j < refs.len() ==> refv(#[trigger] refs[j]) == f[j])
+}
+proof fn lemma_ev_names_add(a: Seq<Ev>, b: Seq<Ev>)
+    ensures ev_names(a + b) == ev_names(a) + ev_names(b),
+    decreases b.len(),
+{
+    if b.len() == 0 {
+        assert(a + b =~= a);
+        assert(ev_names(a) + ev_names(b) =~= ev_names(a));
+    } else {
+        assert((a + b).drop_last() =~= a + b.drop_last());
+        assert((a + b).last() == b.last());
+        lemma_ev_names_add(a, b.drop_last());
+        match b.last() {
+            Ev::Name(n) => { assert(ev_names(a + b) =~= ev_names(a) + ev_names(b)); }
+            Ev::Libid(_) => {}
+        }
+    }
+}
+/// the references of refs_fold are the REFERENCENAME records, in order, under their decoded names
+proof fn lemma_fold_names(evs: Seq<Ev>, cp: u16)
+    ensures
+        refs_fold(evs, cp).len() == ev_names(evs).len(),
+        forall|j: int| 0 <= j < ev_names(evs).len() ==> (#[trigger] refs_fold(evs, cp)[j]).name == decoded(cp, ev_names(evs)[j]),
+    decreases evs.len(),
+{
+    if evs.len() > 0 { lemma_fold_names(evs.drop_last(), cp); }
+}
+proof fn lemma_fold_push(evs: Seq<Ev>, e: Ev, cp: u16)
+    ensures
+        e matches Ev::Name(n) ==> refs_fold(evs.push(e), cp) == refs_fold(evs, cp).push(RefV { name: decoded(cp, n), desc: decoded(cp, n) }),
+        e matches Ev::Libid(l) ==> refs_fold(evs.push(e), cp) == (if refs_fold(evs, cp).len() == 0 { refs_fold(evs, cp) } else {
+            match libid_desc(cp, l) {
+                Some(Some(d)) => refs_fold(evs, cp).update(refs_fold(evs, cp).len() - 1, RefV { name: refs_fold(evs, cp).last().name, desc: d }),
+                _ => refs_fold(evs, cp),
+            }
+        }),
+{
+    assert(evs.push(e).drop_last() =~= evs);
 }
 /// one unfolding of ref_walk at an item that is not the end of the array
-proof fn lemma_walk_step(t: Seq<u8>, n: Option<Seq<u8>>, r: Seq<u8>, done: Seq<Seq<u8>>)
-    requires ref_item(t) == Some((n, Some(r))), r.len() < t.len(),
-    ensures prepend(done, ref_walk(t)) == prepend(done + opt_seq(n), ref_walk(r)),
+proof fn lemma_walk_step(t: Seq<u8>, e: Seq<Ev>, r: Seq<u8>, done: Seq<Ev>)
+    requires ref_item(t) == Some((e, Some(r))), r.len() < t.len(),
+    ensures prepend(done, ref_walk(t)) == prepend(done + e, ref_walk(r)),
 {
     reveal(ref_walk);
     match ref_walk(r) {
-        Some(x) => { assert(done + (opt_seq(n) + x.0) =~= (done + opt_seq(n)) + x.0); }
+        Some(x) => { assert(done + (e + x.0) =~= (done + e) + x.0); }
         None => {}
     }
 }
-proof fn lemma_walk_end(t: Seq<u8>, done: Seq<Seq<u8>>)
+proof fn lemma_walk_end(t: Seq<u8>, done: Seq<Ev>)
     requires t.len() >= 2, le16(t) == 0x000F,
     ensures prepend(done, ref_walk(t)) == Some((done, t.skip(2))),
 {
     reveal(ref_walk); reveal(ref_item);
-    assert(done + Seq::<Seq<u8>>::empty() =~= done);
+    assert(done + Seq::<Ev>::empty() =~= done);
 }
 // ---- what the successful reads of one arm of from_stream say about the item at t (q1, q2, ..: the cursor after each read)
 proof fn lemma_item_name(t: Seq<u8>, r1: Seq<u8>, fin: Seq<u8>)
@@ -453,30 +581,30 @@ proof fn lemma_item_name(t: Seq<u8>, r1: Seq<u8>, fin: Seq<u8>)
         t.len() >= 2, le16(t) == 0x0016,
         t.skip(2).len() >= 4 + le32(t.skip(2)), r1 == t.skip(2).skip(4 + le32(t.skip(2))),
         r1.len() >= 6, le16(r1) == 0x003E, r1.len() >= 6 + le32(r1.skip(2)), fin == r1.skip(6 + le32(r1.skip(2))),
-    ensures ref_item(t) == Some((Some(t.skip(2).subrange(4, 4 + le32(t.skip(2)))), Some(fin))), fin.len() < t.len(),
+    ensures ref_item(t) == Some((seq![Ev::Name(t.skip(2).subrange(4, 4 + le32(t.skip(2))))], Some(fin))), fin.len() < t.len(),
 {
     reveal(ref_item); reveal(name_rec);
     lemma_var_after_id(r1, 0x003E);
 }
 proof fn lemma_item_original(t: Seq<u8>, fin: Seq<u8>)
     requires t.len() >= 2, le16(t) == 0x0033, t.skip(2).len() >= 4 + le32(t.skip(2)), fin == t.skip(2).skip(4 + le32(t.skip(2))),
-    ensures ref_item(t) == Some((None::<Seq<u8>>, Some(fin))), fin.len() < t.len(),
+    ensures ref_item(t) == Some((seq![Ev::Libid(t.skip(2).subrange(4, 4 + le32(t.skip(2))))], Some(fin))), fin.len() < t.len(),
 {
-    reveal(ref_item); reveal(original_rest);
+    reveal(ref_item); reveal(original_rec);
 }
 proof fn lemma_item_registered(t: Seq<u8>, q1: Seq<u8>, q2: Seq<u8>, fin: Seq<u8>)
     requires
         t.len() >= 2, le16(t) == 0x000D, t.skip(2).len() >= 4, q1 == t.skip(2).skip(4),
         q1.len() >= 4 + le32(q1), q2 == q1.skip(4 + le32(q1)), q2.len() >= 6, fin == q2.skip(6),
-    ensures ref_item(t) == Some((None::<Seq<u8>>, Some(fin))), fin.len() < t.len(),
+    ensures ref_item(t) == Some((seq![Ev::Libid(q1.subrange(4, 4 + le32(q1)))], Some(fin))), fin.len() < t.len(),
 {
-    reveal(ref_item); reveal(registered_rest);
+    reveal(ref_item); reveal(registered_rec);
 }
 proof fn lemma_item_project(t: Seq<u8>, q1: Seq<u8>, q2: Seq<u8>, q3: Seq<u8>, fin: Seq<u8>)
     requires
         t.len() >= 2, le16(t) == 0x000E, t.skip(2).len() >= 4, q1 == t.skip(2).skip(4),
         q1.len() >= 4 + le32(q1), q2 == q1.skip(4 + le32(q1)), q2.len() >= 4 + le32(q2), q3 == q2.skip(4 + le32(q2)), q3.len() >= 6, fin == q3.skip(6),
-    ensures ref_item(t) == Some((None::<Seq<u8>>, Some(fin))), fin.len() < t.len(),
+    ensures ref_item(t) == Some((Seq::<Ev>::empty(), Some(fin))), fin.len() < t.len(),
 {
     reveal(ref_item); reveal(project_rest);
 }
@@ -485,7 +613,7 @@ proof fn lemma_control_head_plain(b: Seq<u8>, q1: Seq<u8>, q2: Seq<u8>, q3: Seq<
     requires
         b.len() >= 4, q1 == b.skip(4), q1.len() >= 4 + le32(q1), q2 == q1.skip(4 + le32(q1)), q2.len() >= 6, q3 == q2.skip(6),
         q3.len() >= 2, le16(q3) == 0x0030, q5 == q3.skip(2),
-    ensures control_head(b) == Some(q5), q5.len() < b.len(),
+    ensures control_head(b) == Some((q1.subrange(4, 4 + le32(q1)), q5)), q5.len() < b.len(),
 {
     reveal(control_head);
 }
@@ -496,18 +624,18 @@ proof fn lemma_control_head_named(b: Seq<u8>, q1: Seq<u8>, q2: Seq<u8>, q3: Seq<
         q3.skip(2).len() >= 4 + le32(q3.skip(2)), x1 == q3.skip(2).skip(4 + le32(q3.skip(2))),
         x1.len() >= 6, le16(x1) == 0x003E, x1.len() >= 6 + le32(x1.skip(2)), x2 == x1.skip(6 + le32(x1.skip(2))),
         x2.len() >= 2, le16(x2) == 0x0030, q5 == x2.skip(2),
-    ensures control_head(b) == Some(q5), q5.len() < b.len(),
+    ensures control_head(b) == Some((q1.subrange(4, 4 + le32(q1)), q5)), q5.len() < b.len(),
 {
     reveal(control_head); reveal(name_rec);
     lemma_var_after_id(x1, 0x003E);
 }
-proof fn lemma_item_control(t: Seq<u8>, q5: Seq<u8>, q6: Seq<u8>, q7: Seq<u8>, fin: Seq<u8>)
+proof fn lemma_item_control(t: Seq<u8>, l1: Seq<u8>, q5: Seq<u8>, q6: Seq<u8>, q7: Seq<u8>, fin: Seq<u8>)
     requires
-        t.len() >= 2, le16(t) == 0x002F, control_head(t.skip(2)) == Some(q5), q5.len() < t.skip(2).len(),
+        t.len() >= 2, le16(t) == 0x002F, control_head(t.skip(2)) == Some((l1, q5)), q5.len() < t.skip(2).len(),
         q5.len() >= 4, q6 == q5.skip(4), q6.len() >= 4 + le32(q6), q7 == q6.skip(4 + le32(q6)), q7.len() >= 26, fin == q7.skip(26),
-    ensures ref_item(t) == Some((None::<Seq<u8>>, Some(fin))), fin.len() < t.len(),
+    ensures ref_item(t) == Some((seq![Ev::Libid(l1), Ev::Libid(q6.subrange(4, 4 + le32(q6)))], Some(fin))), fin.len() < t.len(),
 {
-    reveal(ref_item); reveal(control_rest);
+    reveal(ref_item); reveal(control_rec);
 }
 /// a size-prefixed field behind a 2-byte id, as check_variable_record reads it
 proof fn lemma_var_after_id(r1: Seq<u8>, id: int)
@@ -519,6 +647,20 @@ proof fn lemma_var_after_id(r1: Seq<u8>, id: int)
     let n = le32(r1.skip(2));
     assert(r1.skip(2).subrange(4, 4 + n) =~= r1.subrange(6, 6 + n));
     assert(r1.skip(2).skip(4 + n) =~= r1.skip(6 + n));
+}
+/// bookkeeping steps of the loop of from_stream
+proof fn lemma_cur_libid(refs: Seq<Reference>, cur0: Reference, cur1: Reference, done: Seq<Ev>, l: Seq<u8>, cp: u16)
+    requires
+        cur_ok(refs, cur0, refs_fold(done, cp)), cur1.name == cur0.name,
+        libid_desc(cp, l) is Some, cur1.description@ == (match libid_desc(cp, l) { Some(Some(d)) => d, _ => cur0.description@ }),
+    ensures cur_ok(refs, cur1, refs_fold(done.push(Ev::Libid(l)), cp)),
+{
+    lemma_fold_push(done, Ev::Libid(l), cp);
+    let f0 = refs_fold(done, cp);
+    let f1 = refs_fold(done.push(Ev::Libid(l)), cp);
+    if f0.len() > 0 {
+        assert forall|j: int| 0 <= j < refs.len() implies refv(#[trigger] refs[j]) == f1[j] by { assert(refv(refs[j]) == f0[j]); }
+    }
 }
 
 // TRUSTED: `log_enabled!(Level::Warn)` is an opaque boolean (state of the global logger); only guards a `warn!` statement
@@ -584,13 +726,16 @@ use std::path::PathBuf;
 pub assume_specification<P: std::str::pattern::Pattern> [str::strip_prefix::<P>] (_0: &str, _1: P) -> std::option::Option<&str>;
 //@@ item src/vba.rs struct Reference
 //@@ impl src/vba.rs "Reference"
-// TRUSTED: Reference::set_libid is NOT verified (String::rsplit / PathBuf are outside vstd). Assumed from its text: its only access to the
-// stream is `read_variable_record(stream, 1)?` (first statement), so on Ok the cursor stands behind one size-prefixed field; it assigns
-// `self.description` and `self.path` only, never `self.name`.
+// TRUSTED: Reference::set_libid is NOT verified (String::rsplit / PathBuf are outside vstd). Assumed from its text: it reads one
+// size-prefixed field (`read_variable_record(stream, 1)?`, its only access to the stream); an empty libid or one ending in "##" changes
+// nothing; otherwise the libid is decoded and split at '#' from the right: without any '#' the result is Err(LibId), else the last field
+// becomes `self.description` (and the one before it `self.path`, if that is still empty); `self.name` is never assigned.
 //@@ fn src/vba.rs Reference::set_libid external_body ret=res
 //@@ sig
     ensures
-        res is Ok ==> (old(stream)@.len() >= 4 + le32(old(stream)@) && final(stream)@ == old(stream)@.skip(4 + le32(old(stream)@))),
+        res is Ok ==> (old(stream)@.len() >= 4 + le32(old(stream)@) && final(stream)@ == old(stream)@.skip(4 + le32(old(stream)@))
+            && libid_desc(encoding.cp, old(stream)@.subrange(4, 4 + le32(old(stream)@))) is Some
+            && final(self).description@ == (match libid_desc(encoding.cp, old(stream)@.subrange(4, 4 + le32(old(stream)@))) { Some(Some(d)) => d, _ => old(self).description@ })),
         final(self).name == old(self).name,
 //@@ end
 //@@ fn src/vba.rs Reference::from_stream props=C18 ret=res
@@ -599,15 +744,19 @@ pub assume_specification<P: std::str::pattern::Pattern> [str::strip_prefix::<P>]
         //# C18.reference_array_wellformed_if_ok
         res is Ok ==> ref_walk(old(stream)@) is Some,
         //# C18.reference_names_in_order
-        res matches Ok(refs) ==> (names_nonempty(ref_walk(old(stream)@)->Some_0.0, encoding.cp) ==> names_match(refs@, ref_walk(old(stream)@)->Some_0.0, encoding.cp)),
+        res matches Ok(refs) ==> (names_nonempty(ev_names(ref_walk(old(stream)@)->Some_0.0), encoding.cp)
+            ==> names_match(refs@, ev_names(ref_walk(old(stream)@)->Some_0.0), encoding.cp)),
+        //# C18.reference_descriptions_from_their_libids
+        res matches Ok(refs) ==> (names_nonempty(ev_names(ref_walk(old(stream)@)->Some_0.0), encoding.cp)
+            ==> refs_match(refs@, refs_fold(ref_walk(old(stream)@)->Some_0.0, encoding.cp))),
         //# C18.reference_array_consumed
         res is Ok ==> final(stream)@ == ref_walk(old(stream)@)->Some_0.1,
 //@@ body
     let ghost s0 = stream@;
     let ghost w0 = ref_walk(s0);
     let ghost cp = encoding.cp;
-    let ghost h = w0 is Some && names_nonempty(w0->Some_0.0, cp);
-    let ghost mut done: Seq<Seq<u8>> = Seq::empty();
+    let ghost h = w0 is Some && names_nonempty(ev_names(w0->Some_0.0), cp);
+    let ghost mut done: Seq<Ev> = Seq::empty();
 //@@ before /loop \{/
         proof {
             reveal_strlit("");
@@ -617,33 +766,36 @@ pub assume_specification<P: std::str::pattern::Pattern> [str::strip_prefix::<P>]
 //@@ loop 0
             invariant_except_break
                 w0 == prepend(done, ref_walk(stream@)),
-                h ==> pend_ok(references@, reference, done, cp),
+                h ==> cur_ok(references@, reference, refs_fold(done, cp)),
             invariant
-                cp == encoding.cp, h == (w0 is Some && names_nonempty(w0->Some_0.0, cp)),
-                h ==> prefix_ok(references@, done, cp),
+                cp == encoding.cp, h == (w0 is Some && names_nonempty(ev_names(w0->Some_0.0), cp)),
             ensures
                 w0 == Some((done, stream@)),
-                h ==> names_match(references@, done, cp),
+                h ==> refs_match(references@, refs_fold(done, cp)),
             decreases stream@.len(),
 //@@ after /loop \{/
             let ghost t = stream@;
             let ghost b = t.skip(2);
             let ghost done_in = done;
+            let ghost cur_in = reference;
             proof {
-                // the Name read last belongs to the array: it is not empty under the hypothesis of the names clause
-                if h && done.len() > 0 {
+                // the Name read last belongs to the array: it is not empty under the hypothesis of the clauses
+                lemma_fold_names(done, cp);
+                if h && refs_fold(done, cp).len() > 0 {
                     let x = ref_walk(t)->Some_0;
-                    assert(w0->Some_0.0 == done + x.0);
-                    assert(w0->Some_0.0[done.len() - 1] == done.last());
-                    assert(decoded(cp, done.last()).len() > 0);
+                    lemma_ev_names_add(done, x.0);
+                    let k = ev_names(done).len() - 1;
+                    assert(ev_names(w0->Some_0.0)[k] == ev_names(done)[k]);
+                    assert(refs_fold(done, cp)[k].name == decoded(cp, ev_names(done)[k]));
+                    assert(reference.name@.len() > 0);
                 }
             }
 //@@ before /break;/
                     proof {
                         // Id 0x000F: the PROJECTMODULES record ends the reference array
                         lemma_walk_end(t, done);
-                        //# C18.reference_names_in_order
-                        assert(h ==> names_match(references@, done, cp));
+                        //# C18.reference_descriptions_from_their_libids
+                        assert(h ==> refs_match(references@, refs_fold(done, cp)));
                     }
 //@@ after /read_variable_record\(stream, [^;]*;/#0of4
                     let ghost r1 = stream@;
@@ -651,27 +803,34 @@ pub assume_specification<P: std::str::pattern::Pattern> [str::strip_prefix::<P>]
                     proof {
                         let n = b.subrange(4, 4 + le32(b));
                         lemma_item_name(t, r1, stream@);
-                        lemma_walk_step(t, Some(n), stream@, done);
-                        done = done.push(n);
-                        assert(done =~= done_in + opt_seq(Some(n)));
-                        assert(done.last() == n && done.len() == done_in.len() + 1);
+                        lemma_walk_step(t, seq![Ev::Name(n)], stream@, done);
+                        done = done.push(Ev::Name(n));
+                        assert(done =~= done_in + seq![Ev::Name(n)]);
+                        lemma_fold_push(done_in, Ev::Name(n), cp);
                         if h {
-                            assert forall|j: int| 0 <= j < references@.len() implies j < done.len() && (#[trigger] references@[j]).name@ == decoded(cp, done[j]) by {
-                                if j < done_in.len() { assert(done[j] == done_in[j]); }
+                            let f0 = refs_fold(done_in, cp);
+                            let f1 = refs_fold(done, cp);
+                            assert(f1.last() == refv(reference));
+                            assert forall|j: int| 0 <= j < references@.len() implies refv(#[trigger] references@[j]) == f1[j] by {
+                                if j < f0.len() - 1 { assert(f1[j] == f0[j]); } else { assert(f1[j] == f0[j]); }
                             }
                         }
                     }
 //@@ after /reference\.set_libid\([^;]*;/#0of4
                     proof {
                         // REFERENCEORIGINAL
+                        let l = b.subrange(4, 4 + le32(b));
                         lemma_item_original(t, stream@);
-                        lemma_walk_step(t, None, stream@, done);
-                        assert(done + opt_seq(None::<Seq<u8>>) =~= done);
+                        lemma_walk_step(t, seq![Ev::Libid(l)], stream@, done);
+                        done = done.push(Ev::Libid(l));
+                        assert(done =~= done_in + seq![Ev::Libid(l)]);
+                        if h { lemma_cur_libid(references@, cur_in, reference, done_in, l, cp); }
                     }
 //@@ after /skip\(stream, [^;]*;/#0of8
                     let ghost q1 = stream@;
 //@@ after /reference\.set_libid\([^;]*;/#1of4
                     let ghost q2 = stream@;
+                    let ghost cur_1 = reference;
 //@@ after /skip\(stream, [^;]*;/#1of8
                     let ghost q3 = stream@;
 //@@ after /read_variable_record\(stream, [^;]*;/#1of4
@@ -682,9 +841,10 @@ pub assume_specification<P: std::str::pattern::Pattern> [str::strip_prefix::<P>]
                             proof { lemma_control_head_named(b, q1, q2, q3, x1, x2, stream@); }
 //@@ before /skip\(stream, /#2of8
                     let ghost q5 = stream@;
+                    let ghost l1 = q1.subrange(4, 4 + le32(q1));
                     proof {
                         if le16(q3) != 0x0016 { lemma_control_head_plain(b, q1, q2, q3, q5); }
-                        assert(control_head(b) == Some(q5) && q5.len() < b.len());
+                        assert(control_head(b) == Some((l1, q5)) && q5.len() < b.len());
                     }
 //@@ after /skip\(stream, [^;]*;/#2of8
                     let ghost q6 = stream@;
@@ -692,10 +852,16 @@ pub assume_specification<P: std::str::pattern::Pattern> [str::strip_prefix::<P>]
                     let ghost q7 = stream@;
 //@@ after /skip\(stream, [^;]*;/#3of8
                     proof {
-                        // REFERENCECONTROL
-                        lemma_item_control(t, q5, q6, q7, stream@);
-                        lemma_walk_step(t, None, stream@, done);
-                        assert(done + opt_seq(None::<Seq<u8>>) =~= done);
+                        // REFERENCECONTROL: LibidTwiddled, then LibidExtended
+                        let l2 = q6.subrange(4, 4 + le32(q6));
+                        lemma_item_control(t, l1, q5, q6, q7, stream@);
+                        lemma_walk_step(t, seq![Ev::Libid(l1), Ev::Libid(l2)], stream@, done);
+                        done = done.push(Ev::Libid(l1)).push(Ev::Libid(l2));
+                        assert(done =~= done_in + seq![Ev::Libid(l1), Ev::Libid(l2)]);
+                        if h {
+                            lemma_cur_libid(references@, cur_in, cur_1, done_in, l1, cp);
+                            lemma_cur_libid(references@, cur_1, reference, done_in.push(Ev::Libid(l1)), l2, cp);
+                        }
                     }
 //@@ after /skip\(stream, [^;]*;/#4of8
                     let ghost q1 = stream@;
@@ -704,9 +870,12 @@ pub assume_specification<P: std::str::pattern::Pattern> [str::strip_prefix::<P>]
 //@@ after /skip\(stream, [^;]*;/#5of8
                     proof {
                         // REFERENCEREGISTERED
+                        let l = q1.subrange(4, 4 + le32(q1));
                         lemma_item_registered(t, q1, q2, stream@);
-                        lemma_walk_step(t, None, stream@, done);
-                        assert(done + opt_seq(None::<Seq<u8>>) =~= done);
+                        lemma_walk_step(t, seq![Ev::Libid(l)], stream@, done);
+                        done = done.push(Ev::Libid(l));
+                        assert(done =~= done_in + seq![Ev::Libid(l)]);
+                        if h { lemma_cur_libid(references@, cur_in, reference, done_in, l, cp); }
                     }
 //@@ after /skip\(stream, [^;]*;/#6of8
                     let ghost q1 = stream@;
@@ -716,13 +885,32 @@ pub assume_specification<P: std::str::pattern::Pattern> [str::strip_prefix::<P>]
                     let ghost q3 = stream@;
 //@@ after /skip\(stream, [^;]*;/#7of8
                     proof {
-                        // REFERENCEPROJECT
+                        // REFERENCEPROJECT (its libids are paths, assigned to `path` only: name and description stay)
                         lemma_item_project(t, q1, q2, q3, stream@);
-                        lemma_walk_step(t, None, stream@, done);
-                        assert(done + opt_seq(None::<Seq<u8>>) =~= done);
+                        lemma_walk_step(t, Seq::<Ev>::empty(), stream@, done);
+                        assert(done + Seq::<Ev>::empty() =~= done);
+                        assert(refv(reference) == refv(cur_in));
                     }
+//@@ before /Ok\(references\)/
+        proof {
+            //# C18.reference_names_in_order
+            assert(h ==> names_match(references@, ev_names(done), cp)) by {
+                lemma_fold_names(done, cp);
+                if h {
+                    assert forall|j: int| 0 <= j < references@.len() implies (#[trigger] references@[j]).name@ == decoded(cp, ev_names(done)[j]) by {
+                        assert(refv(references@[j]) == refs_fold(done, cp)[j]);
+                    }
+                }
+            }
+        }
 //@@ end
 //@@ endimpl
+
+proof fn witness_from_stream()
+    ensures ref_walk(seq![0x0Fu8, 0x00]) is Some,
+{
+    reveal(ref_walk); reveal(ref_item);
+}
 
 } // mod vb
 
